@@ -49,12 +49,16 @@ def coq_bytes_list(bs):
 LP_FAILED = [0, False, b"", b"", True]
 
 
-def lp_trace(stream, lens):
+def ident(b):
+    return b
+
+
+def lp_trace(stream, lens, ob=ident):
     P = _P()
     d = P.LengthPrefixedBodyDecoder()
 
     def o():
-        return [d.next_read_size(), bool(d.finished_reading), d.read_pending_data(), d.unused_data, False]
+        return [d.next_read_size(), bool(d.finished_reading), ob(d.read_pending_data()), ob(d.unused_data), False]
     out = [o()]
     failed = False
     for seg in cut(lens, stream):
@@ -63,7 +67,7 @@ def lp_trace(stream, lens):
                 d.accept_bytes(seg)
             except ValueError:
                 failed = True
-        out.append(list(LP_FAILED) if failed else o())
+        out.append([0, False, ob(b""), ob(b""), True] if failed else o())
     return out
 
 
@@ -75,7 +79,7 @@ def impl_lp(inp):
 
 # ------------------------------------------------------- level A: Chunked
 
-def ck_trace(stream, lens):
+def ck_trace(stream, lens, ob=ident):
     P = _P()
     from breezy.bzr.smart import request
     from dromedary import errors as terrors
@@ -91,7 +95,8 @@ def ck_trace(stream, lens):
                 err[0] = list(c.args)
             else:
                 chunks.append(c)
-        return [d.next_read_size(), bool(d.finished_reading), list(chunks), err[0], d.unused_data]
+        return [d.next_read_size(), bool(d.finished_reading), [ob(c) for c in chunks],
+                None if err[0] is None else [ob(a) for a in err[0]], ob(d.unused_data)]
     out = [o()]
     failed = None
     for seg in cut(lens, stream):
@@ -156,7 +161,7 @@ class Recorder:
         self.error = type(exception).__name__
 
 
-def p3_trace(client, stream, lens):
+def p3_trace(client, stream, lens, ob=ident):
     P = _P()
     h = Recorder()
     d = P.ProtocolThreeDecoder(h, expect_version_marker=client)
@@ -165,7 +170,8 @@ def p3_trace(client, stream, lens):
         if d.decoding_failed:
             return Err(h.error)
         fin = d.state_accept == d._state_accept_reading_unused
-        return [d.next_read_size(), fin, [list(e) for e in h.events], d.unused_data]
+        evs = [[e[0], e[1] if e[0] == "byte" else ob(e[1])] if len(e) > 1 else [e[0]] for e in h.events]
+        return [d.next_read_size(), fin, evs, ob(d.unused_data)]
     out = [o()]
     for seg in cut(lens, stream):
         if not d.decoding_failed:
@@ -214,6 +220,183 @@ def coq_p3_parts(parts):
 
 def coq_headers(headers):
     return coq_bytes(bencode(dict(headers)))
+
+
+# --------------------------------------- level A on LARGE messages (RLE + digests)
+
+MAX_READ = 64 * 1024            # medium._MAX_READ_SIZE = osutils.MAX_SOCKET_CHUNK
+BUFFER_SIZE = 1024 * 1024       # _ProtocolThreeEncoder.BUFFER_SIZE
+# just below / at / above every size threshold of the anchored code, and a few times larger
+BIG_SIZES = [MAX_READ - 1, MAX_READ, MAX_READ + 1, BUFFER_SIZE - 60, BUFFER_SIZE - 1, BUFFER_SIZE,
+             BUFFER_SIZE + 1, 3 * BUFFER_SIZE + 5]
+
+
+def expand(rle):
+    return b"".join(bytes([b]) * n for b, n in rle)
+
+
+def hashb(b):
+    acc = 0
+    for c in b:
+        acc = (acc * 31 + c + 1) & 0xFFFFFFFF
+    return acc
+
+
+def dg(b):
+    return [len(b), hashb(b)]
+
+
+def rle_of(n, seed=0):
+    """An RLE description of n bytes whose content depends on the position (a misplaced block changes the digest)."""
+    out, left, i = [], n, seed
+    while left > 0:
+        k = min(left, [7, 1000, 65536, 300000][i % 4])
+        out.append([97 + i % 23, k])
+        left -= k
+        i += 1
+    return out
+
+
+def coq_rle(rle):
+    return coq_list([f"({b}%N, {n}%N)" for b, n in rle])
+
+
+def coq_big_parts(parts):
+    out = []
+    for p in parts:
+        if p[0] == "o":
+            out.append(f"BOne {p[1][0]}%N")
+        elif p[0] == "b":
+            out.append(f"BBytes {coq_rle(p[1])}")
+        else:
+            out.append(f"BStruct {coq_bytes(bencode(list(p[1])))}")
+    return coq_list(out)
+
+
+def _big_p3_parts(parts):
+    return [["b", expand(p[1])] if p[0] == "b" else p for p in parts]
+
+
+def big_stream(inp):
+    P = _P()
+    if inp["dec"] == "lp":
+        return P.SmartProtocolBase()._encode_bulk_data(expand(inp["body"]))
+    if inp["dec"] == "ck":
+        return real_encode_stream([expand(c) for c in inp["chunks"]], inp["err"])
+    return real_encode_p3(inp["headers"], _big_p3_parts(inp["parts"]))
+
+
+def impl_big(inp):
+    P = _P()
+    k = inp["kind"]
+    enc = big_stream(inp)
+    wire = enc
+    if inp["dec"] == "p3" and not inp.get("client", True):
+        wire = enc[len(P.MESSAGE_VERSION_THREE):]
+    if k == "big_enc":
+        # real encoder -> real decoder in one piece: the decoded message is the sent message
+        tr = {"lp": lp_trace, "ck": ck_trace}.get(inp["dec"])
+        last = tr(enc, [], dg)[-1] if tr else p3_trace(True, enc, [], dg)[-1]
+        return [dg(enc), last]
+    if k == "big_rl":
+        if inp["dec"] == "lp":
+            d = P.LengthPrefixedBodyDecoder()
+            fin = lambda: bool(d.finished_reading)
+        elif inp["dec"] == "ck":
+            d = P.ChunkedBodyDecoder()
+            fin = lambda: bool(d.finished_reading)
+        else:
+            d = P.ProtocolThreeDecoder(Recorder(), expect_version_marker=inp["client"])
+            fin = lambda: d.next_read_size() == 0
+        return [dg(wire), rl_run(d.accept_bytes, d.next_read_size, fin, wire, inp["pol"])]
+    stream = wire + expand(inp["tail"])
+    if inp["dec"] == "lp":
+        return [dg(enc), lp_trace(stream, inp["lens"], dg)]
+    if inp["dec"] == "ck":
+        return [dg(enc), ck_trace(stream, inp["lens"], dg)]
+    return [dg(enc), p3_trace(inp["client"], stream, inp["lens"], dg)]
+
+
+def big_model_term(inp):
+    k, d = inp["kind"], inp["dec"]
+    if d == "lp":
+        msg = coq_rle(inp["body"])
+    elif d == "ck":
+        msg = f"{coq_list([coq_rle(c) for c in inp['chunks']])} {coq_option(inp['err'], coq_bytes_list)}"
+    else:
+        msg = f"{coq_headers(inp['headers'])} {coq_big_parts(inp['parts'])}"
+    if k == "big_enc":
+        # [digest of the encoding; the final observation of the decoder fed the whole encoding]
+        one = {"lp": f"run_big_lp {msg} [] []", "ck": f"run_big_ck {msg} [] []",
+               "p3": f"run_big_p3 true {msg} [] []"}[d]
+        return (f"match {one} with OL [e; OL tr] => OL [e; last tr ON] | o => o end")
+    if k == "big_rl":
+        cl = f"{coq_bool(inp['client'])} " if d == "p3" else ""
+        return f"run_big_rl_{d} {cl}{msg} {coq_list(inp['pol'], coq_N)}"
+    cl = f"{coq_bool(inp['client'])} " if d == "p3" else ""
+    return f"run_big_{d} {cl}{msg} {coq_rle(inp['tail'])} {coq_list(inp['lens'], coq_N)}"
+
+
+def capped_policy(inp):
+    """The reads of a medium that caps every read at _MAX_READ_SIZE, as a policy list for rl_amount
+    (derived once from the real decoder's hints: 0 = the full hint, 65536 = 65536 bytes when hint > 65535)."""
+    P = _P()
+    wire = big_stream(inp)
+    if inp["dec"] == "p3" and not inp["client"]:
+        wire = wire[len(P.MESSAGE_VERSION_THREE):]
+    d = {"lp": P.LengthPrefixedBodyDecoder, "ck": P.ChunkedBodyDecoder}.get(inp["dec"])
+    d = d() if d else P.ProtocolThreeDecoder(Recorder(), expect_version_marker=inp["client"])
+    pol, pos = [], 0
+    while pos < len(wire) and len(pol) < 400:
+        h = d.next_read_size()
+        if h <= 0:
+            break
+        n = min(h, MAX_READ)
+        pol.append(0 if n == h else MAX_READ)
+        d.accept_bytes(wire[pos:pos + n])
+        pos += n
+    return pol + [0, 0]
+
+
+def big_msg(dec, size, rng=None, client=True, shape=0):
+    if dec == "lp":
+        return {"dec": "lp", "body": rle_of(size, shape)}
+    if dec == "ck":
+        chunks = [rle_of(size, shape)] if shape % 2 == 0 else [rle_of(3, 1), rle_of(size, shape), rle_of(0)]
+        return {"dec": "ck", "chunks": chunks, "err": None if shape % 3 else [b"error", b"x"]}
+    parts = [["s", [b"verb", b"arg"]], ["b", rle_of(size, shape)]] if shape % 2 == 0 else \
+        [["o", b"S"], ["s", [b"ok"]], ["b", rle_of(5, 2)], ["b", rle_of(size, shape)], ["o", b"E"], ["s", [b"error"]]]
+    return {"dec": "p3", "client": client, "headers": [[b"Software version", b"3.3.0"]], "parts": parts}
+
+
+def gen_big(rng, tier, hints=False):
+    """Level A cases around every size threshold.  Decoder traces use the segments a medium capped at
+    _MAX_READ_SIZE delivers; sizes above BUFFER_SIZE+1 are compared through the encoder digest and a
+    one-piece decode only (a trace inside Coq would be too slow)."""
+    thorough = tier != "quick"
+    for dec in ("lp", "ck", "p3"):
+        for si, size in enumerate(BIG_SIZES):
+            small = size <= MAX_READ + 1
+            if not thorough and dec != "p3" and not small and size != BUFFER_SIZE + 1:
+                continue                              # no size constant in the v1/v2 codecs themselves
+            shapes = (0, 1) if (thorough or dec == "p3") and size <= BUFFER_SIZE + 1 else (si % 2,)
+            for shape in shapes:
+                m = big_msg(dec, size, rng, client=(shape + si) % 2 == 0, shape=shape)
+                if size > BUFFER_SIZE + 1:
+                    yield dict(m, kind="big_enc")
+                    continue
+                total = len(big_stream(m))
+                tail = rle_of(rng.choice([0, 3]), 5)
+                if hints:
+                    yield dict(m, kind="big_rl", pol=capped_policy(m))
+                    if small:
+                        yield dict(m, kind="big_rl", pol=[rng.choice([0, 1, 65536, 40000, 7]) for _ in range(60)] + [0] * 40)
+                else:
+                    yield dict(m, kind="big", tail=tail, lens=[MAX_READ] * (total // MAX_READ))
+                    if small or thorough:
+                        yield dict(m, kind="big", tail=tail, lens=[rng.choice([1, MAX_READ - 1, 5, total // 2])
+                                                                    for _ in range(4)])
+                    yield dict(m, kind="big_enc")
 
 
 # ------------------------------------------------ level A: hint-driven reads
@@ -385,6 +568,8 @@ def gen_rh(rng, tier):
 
 def impl_A(inp):
     k = inp["kind"]
+    if k in ("big", "big_enc", "big_rl"):
+        return impl_big(inp)
     if k == "rh":
         return impl_rh(inp)
     if k == "lp":
@@ -414,6 +599,8 @@ def impl_A(inp):
 
 def model_term_A(inp):
     k = inp["kind"]
+    if k in ("big", "big_enc", "big_rl"):
+        return big_model_term(inp)
     if k == "rh":
         return f"run_rh {coq_rh_events(inp['events'])}"
     if k == "lp":
@@ -457,11 +644,17 @@ class PipeReader:
     block for ever.  Instead of hanging, the latter raises WouldBlock."""
 
     def __init__(self, data, short=None):
+        self.reads = []
+        self.short = short      # optional list of ints: deliver fewer bytes (socket-like short reads)
+        self.mem = None
+        self.r = self.w = None
+        if len(data) > 60000:
+            # more than a pipe buffer holds: same semantics (exactly n bytes or block for ever) in memory
+            self.mem, self.pos = data, 0
+            return
         self.r, self.w = os.pipe()
         os.set_blocking(self.r, False)
         os.write(self.w, data)
-        self.reads = []
-        self.short = short      # optional list of ints: deliver fewer bytes (socket-like short reads)
 
     def read(self, n=-1):
         if n is None or n < 0:
@@ -470,6 +663,13 @@ class PipeReader:
         if self.short:
             k = self.short.pop(0)
             want = 1 + k % n if n > 0 else 0
+        if self.mem is not None:
+            if len(self.mem) - self.pos < want:
+                raise WouldBlock(n, len(self.mem) - self.pos)
+            got = self.mem[self.pos:self.pos + want]
+            self.pos += want
+            self.reads.append((n, len(got)))
+            return got
         got = b""
         while len(got) < want:
             try:
@@ -481,6 +681,9 @@ class PipeReader:
         return got
 
     def _avail(self):
+        if self.mem is not None:
+            left, self.pos = len(self.mem) - self.pos, len(self.mem)
+            return left
         try:
             return len(os.read(self.r, 1 << 16))
         except BlockingIOError:
@@ -491,6 +694,8 @@ class PipeReader:
 
     def close(self):
         for fd in (self.r, self.w):
+            if fd is None:
+                continue
             try:
                 os.close(fd)
             except OSError:
@@ -603,8 +808,33 @@ def client_decode(version, data, resp, short=None):
     return result
 
 
+def _unrle(x):
+    return expand(x["rle"]) if isinstance(x, dict) and "rle" in x else x
+
+
+def norm_e2e(inp):
+    """Expand run-length encoded bodies / chunks of an e2e input."""
+    out = dict(inp, requests=[])
+    for r in inp["requests"]:
+        resp = dict(r["resp"])
+        if "body" in resp:
+            resp["body"] = _unrle(resp["body"])
+        if "chunks" in resp:
+            resp["chunks"] = [_unrle(c) for c in resp["chunks"]]
+        out["requests"].append(dict(r, body=_unrle(r["body"]), resp=resp))
+    return out
+
+
+def small(b):
+    """Large byte strings are observed through their digest."""
+    if isinstance(b, (bytes, bytearray)) and len(b) > 4096:
+        return [Tag("digest")] + dg(bytes(b))
+    return b
+
+
 def impl_e2e(inp):
     register_echo()
+    inp = norm_e2e(inp)
     v = inp["version"]
     reqs = inp["requests"]
     try:
@@ -628,13 +858,18 @@ def impl_e2e(inp):
                 proto = sm._build_protocol()
                 sm._serve_one_request_unguarded(proto)
                 outs.append(out.getvalue()[before:])
-                got.append([_plan.get("got_args"), _plan.get("got_body")])
+                got.append([_plan.get("got_args"), small(_plan.get("got_body"))])
             left = rd.leftover()
         finally:
             rd.close()
         decoded = []
         for r, o in zip(reqs, outs):
             decoded.append(client_decode(v, o, r["resp"], list(inp["short"]) if inp.get("short") else None))
+        for dec in decoded:
+            if "body" in dec:
+                dec["body"] = small(dec["body"])
+            if "chunks" in dec:
+                dec["chunks"] = [small(c) for c in dec["chunks"]]
         return {"server_got": got, "server_left": left, "client": decoded}
     except WouldBlock as e:
         return [Tag("would-block"), e.asked, e.available]
@@ -915,12 +1150,35 @@ def gen_e2e(rng, tier):
         yield {"kind": "e2e", "version": v, "requests": reqs, "short": short}
 
 
+def gen_e2e_big(rng, tier):
+    """Whole requests / responses of v1, v2, v3 with a body, a response body or a streamed chunk just
+    below / at / above every size threshold, and one a few times larger."""
+    sizes = BIG_SIZES if tier != "quick" else [MAX_READ, MAX_READ + 1, BUFFER_SIZE - 60, BUFFER_SIZE,
+                                               BUFFER_SIZE + 1, 3 * BUFFER_SIZE + 5]
+    for v in (1, 2, 3):
+        for i, size in enumerate(sizes):
+            big = {"rle": rle_of(size, i)}
+            ok = [b"ok"]
+            none = {"ok": True, "args": ok, "kind": "none"}
+            shapes = [{"args": [b"a"], "body": big, "offsets": None, "resp": none},
+                      {"args": [b"a"], "body": None, "offsets": None,
+                       "resp": {"ok": True, "args": ok, "kind": "body", "body": big}}]
+            if v >= 2:
+                shapes.append({"args": [b"a"], "body": b"x", "offsets": None,
+                               "resp": {"ok": True, "args": ok, "kind": "stream",
+                                        "chunks": [b"ab", big, b""], "err": [b"error", b"late"] if i % 2 else None}})
+            for sh in shapes:
+                follow = {"args": [b"next"], "body": None, "offsets": None, "resp": none}
+                yield {"kind": "e2e", "version": v, "requests": [sh, follow] if i % 2 else [sh], "short": None}
+
+
 def oracle_e2e(inp, obs):
     """C29 and C30 on whole messages: what the server handler received and what the client
     decoded are what was sent; nobody asked a pipe for more bytes than the message has."""
     if isinstance(obs, list) and obs and obs[0] == "would-block":
         return f"a read of {obs[1]} bytes was requested when only {obs[2]} bytes of the message remain (blocks on a pipe)"
     P = _P()
+    inp = norm_e2e(inp)
     for r, got, dec in zip(inp["requests"], obs["server_got"], obs["client"]):
         if got[0] != list(r["args"]):
             return f"server received args {got[0]!r}, sent {r['args']!r}"
@@ -928,18 +1186,18 @@ def oracle_e2e(inp, obs):
             want = P.SmartProtocolBase()._serialise_offsets([tuple(o) for o in r["offsets"]])
             if got[1] != want or _deser(got[1]) != [list(o) for o in r["offsets"]]:
                 return f"server received readv body {got[1]!r} for offsets {r['offsets']!r}"
-        elif r["body"] is not None and got[1] != r["body"]:
-            return f"server received body {got[1]!r}, sent {r['body']!r}"
+        elif r["body"] is not None and got[1] != small(r["body"]):
+            return f"server received body {got[1]!r}, sent {small(r['body'])!r}"
         resp = r["resp"]
         if dec.get("decode_error"):
             return f"client could not decode the response {resp!r}: {dec['decode_error']}"
         if dec["args"] != list(resp["args"]) or dec["ok"] != resp["ok"]:
             return f"client decoded {dec['ok']}/{dec['args']!r}, server sent {resp['ok']}/{resp['args']!r}"
-        if resp["kind"] == "body" and dec.get("body") != resp["body"]:
-            return f"client decoded body {dec.get('body')!r}, server sent {resp['body']!r}"
+        if resp["kind"] == "body" and dec.get("body") != small(resp["body"]):
+            return f"client decoded body {dec.get('body')!r}, server sent {small(resp['body'])!r}"
         if resp["kind"] == "stream":
-            if dec.get("chunks") != list(resp["chunks"]):
-                return f"client decoded chunks {dec.get('chunks')!r}, server sent {resp['chunks']!r}"
+            if dec.get("chunks") != [small(c) for c in resp["chunks"]]:
+                return f"client decoded chunks {dec.get('chunks')!r}, server sent {[small(c) for c in resp['chunks']]!r}"
             if dec.get("err") != resp["err"]:
                 return f"client decoded stream error {dec.get('err')!r}, server sent {resp['err']!r}"
         if dec["left"] != 0:
